@@ -550,7 +550,7 @@ func coverDocs(emit func(c01Case)) {
 
 func runC01(id string) int {
 	r := verdict.New(id, *tier, "exploration")
-	r.Rule = "documents derived from the ontology grammar: (a) canonical class = exhaustive (type, property, value kind) cover in scalar and two-element-list form, each with an unknown member holding null/nested array/object, plus seeded random documents (depth<=3, lists<=4, natural-language maps, multi-vocabulary contexts, unknown members), judged by JSON equality with @context as a set; (b) accepted class = grammar mutations of those documents and the vocabulary files' examples, judged by no-silent-loss and second-round-trip idempotence; non-trivial = decoder accepted the document and it was fully judged; distinct by document"
+	r.Rule = "documents derived from the ontology grammar: (a) canonical class = exhaustive (type, property, value kind) cover in scalar and two-element-list form, each with an unknown member holding null/nested array/object, plus seeded random documents (depth<=3, lists<=4, natural-language maps, multi-vocabulary contexts, unknown members), judged by JSON equality with @context as a set; (b) accepted class = grammar mutations of those documents and the vocabulary files' examples, judged by no-silent-loss and second-round-trip idempotence; (d) 162 documents under an aliased vocabulary ({vocabulary: alias} context, prefixed names, unprefixed members); durations beyond time.Duration among the literal samples; non-trivial = decoder accepted the document and it was fully judged; distinct by document"
 	r.Assumptions = []string{"ontology oracle decides which members are known properties of an object level", "JSON equality after passing the encoder's output through encoding/json", "a canonical document's @context names exactly the vocabularies of its type, its set properties and its interpreted nested objects"}
 	buildNameIndex()
 	if *replay != "" {
